@@ -39,6 +39,10 @@ def run(ctx):
         dlmain.check_open_flags(ck, prog, config, 'C11-a')
         # the copy step of the restart takes chunks from the source only, under the full match guard
         dlrules.copy_guard(ck, prog, config, 'C11-f')
+        # what was received and verified is on disk: the download and copy paths never step over bytes
+        from ..rules import extra as _x11
+        _x11.check_no_forward_seek(ck, prog, config, 'C11-g', ('zck_write_chunk_cb', 'zck_write_zck_header_cb', 'zck_copy_chunks'),
+                                   'download and copy path')
         c09.scan_reads(ck, prog, config, 'C11-b', 'C11-b')
         # the rescan takes a short count for the end of the file: the read wrapper must make the two coincide
         from ..rules import shorteof
